@@ -167,7 +167,8 @@ ENGINE_MC = [("EngineMC", "EngineMC.cfg", "hold", ("quick", "thorough")),
              ("EngineMC", "EngineMC_big.cfg", "hold", ("thorough",))]
 
 
-def engine_check(pid, tier, seed, replay, gen, rule, design_ref, assumptions, keep=False, mc=ENGINE_MC, events=core.ENGINE_EVENTS):
+def engine_check(pid, tier, seed, replay, gen, rule, design_ref, assumptions, keep=False, mc=ENGINE_MC, events=core.ENGINE_EVENTS,
+                 module="EngineTrace", cfg=TRACE_CFG):
     t0 = time.time()
     if replay:
         with open(replay) as f:
@@ -184,9 +185,9 @@ def engine_check(pid, tier, seed, replay, gen, rule, design_ref, assumptions, ke
             shutil.copytree(wd, os.path.join("/tmp", f"keep-{pid}"), dirs_exist_ok=True)
         t1 = time.time()
         core.log(f"[{pid}] {len(scenarios)} scenarios executed on the real code in {t1-t0:.1f}s")
-        val = validate_parallel("EngineTrace", TRACE_CFG % pid, paths)
+        val = validate_parallel(module, cfg % pid, paths)
         t2 = time.time()
-        core.log(f"[{pid}] {val['lines']} events validated against EngineTrace in {t2-t1:.1f}s "
+        core.log(f"[{pid}] {val['lines']} events validated against {module} in {t2-t1:.1f}s "
                  f"({val['rounds']} TLC runs), violations: {len(val['violations'])}, binding lost: {val['binding_lost']}")
         cov = scan_traces(paths, rule)
     finally:
@@ -215,7 +216,7 @@ def engine_check(pid, tier, seed, replay, gen, rule, design_ref, assumptions, ke
         "design_model_states": states, "design_model_transitions": trans, "design_models": notes,
         "trace_events_validated": val["lines"], "property_invocations_observed": cov["invocations"],
         "binding_lost": val["binding_lost"], "known_findings": len(known),
-        "checker_cmd": f"tlc EngineTrace.tla (Property={pid}) on traces recorded by harness.test -tags verif; tlc EngineMC.tla",
+        "checker_cmd": f"tlc {module}.tla (Property={pid}) on traces recorded by harness.test -tags verif; tlc " + ", ".join(sorted({m[0] for m in mc})),
     }
     core.write_evidence(pid, tier, seed, "model_checking", coverage, time.time() - t0, len(new), assumptions)
     return rc
@@ -227,6 +228,8 @@ RULES_TEXT = {
     "C05": "one case = one Check of a (multi-site) scripted property; non-trivial = a failure was found and the minimizer ran (accept events checked for strict short-lex decrease, same site, result <= original)",
     "C07": "one case = a two-run history (run, then re-run with the printed seed / the same fixed seed); non-trivial = the first run reported a failure (or both runs completed for same-seed pairs)",
     "C09": "one case = one Check with given N, skip pattern and fail files present; non-trivial = more than one invocation happened",
+    "C10": "one case = one Check (or fuzz call / two-run history) of a scripted property that registers cleanups of kinds {plain, panics, registers another, nested, Errorf, Skip} in the body and in (retried) Custom functions and samples T.Context() in body, cleanup and afterwards; every invocation of every kind (generation, reproduction, minimization try/confirm, capture, final replay, fail-file runs, fuzz) is one bracket instance; non-trivial = cleanups or contexts were used",
+    "C08": "one case = one Check of a state machine with 1..4 actions drawn from {ok, skip before draw (state dependent), skip after draw, always skip, fatal on j-th call, non-fatal on j-th call} with/without an invariant that may fail on its j-th run; non-trivial = at least one action was called",
     "C11": "one case = one Check whose consecutive random test cases follow a prescribed sequence of behaviours over {Errorf, Errorf+Skip, Skip, cleanup-Errorf, Custom-Errorf, pass, Fatalf, context/label probes}; non-trivial = at least two invocations",
 }
 
@@ -261,7 +264,49 @@ def c11(tier, seed, replay, keep):
     return engine_check("C11", tier, seed, replay, scen.c11, rule_any, "4/C11", ASSUME_COMMON, keep)
 
 
-TABLE = {"C01": c01, "C02": c02, "C05": c05, "C07": c07, "C09": c09, "C11": c11}
+INV_EVENTS = ("scen.begin,scen.end,run.begin,run.end,h.phase,h.once.begin,h.once.end,inv.begin,inv.end,cinv.begin,cinv.end,"
+              "h.custom.begin,h.custom.end,cleanup.reg,cleanup.run,cleanup.end,ctx,sm.begin,sm.end,sm.inv.begin,sm.inv.end,"
+              "sm.action.begin,sm.action.end,draw,call,h.repeat.more,h.action.res,h.action.none,tb.errorf,fuzz.begin,fuzz.end,harness.done")
+INV_CFG = """SPECIFICATION Spec
+CONSTANTS
+  Property = "%s"
+CONSTRAINT HW
+POSTCONDITION Accepted
+CHECK_DEADLOCK FALSE
+"""
+INV_MC = [("Cleanup", "CleanupMC.cfg", "hold", ("quick", "thorough")),
+          ("Cleanup", "CleanupMC_broken.cfg", "violate", ("quick", "thorough"))]
+
+
+def rule_cleanups(evs):
+    regs = sum(1 for e in evs if e["ev"] == "cleanup.reg")
+    ctxs = sum(1 for e in evs if e["ev"] == "ctx")
+    invs = sum(1 for e in evs if e["ev"] == "h.once.end")
+    kinds = sorted({e["kind"] for e in evs if e["ev"] == "h.phase"})
+    return f"{invs} invocations of kinds {kinds}, {regs} cleanups registered, {ctxs} context samples" if regs + ctxs > 0 else None
+
+
+def rule_sm(evs):
+    acts = sum(1 for e in evs if e["ev"] == "sm.action.end")
+    skipped = sum(1 for e in evs if e["ev"] == "sm.action.end" and not e["ret"] and e.get("last") == "skip")
+    invs = sum(1 for e in evs if e["ev"] == "sm.inv.begin")
+    return f"{acts} action calls ({skipped} skipped), {invs} invariant runs" if acts else None
+
+
+def c10(tier, seed, replay, keep):
+    return engine_check("C10", tier, seed, replay, scen.c10, rule_cleanups, "4/C10", ASSUME_COMMON[:1], keep, mc=INV_MC, events=INV_EVENTS,
+                        module="InvTrace", cfg=INV_CFG)
+
+
+def c08(tier, seed, replay, keep):
+    return engine_check("C08", tier, seed, replay, scen.c08, rule_sm, "4/C08", ASSUME_COMMON[:1], keep, mc=SM_MC, events=INV_EVENTS,
+                        module="InvTrace", cfg=INV_CFG)
+
+
+SM_MC = [("RepeatSM", "RepeatSM.cfg", "hold", ("quick", "thorough")),
+         ("RepeatSM", "RepeatSM_broken.cfg", "violate", ("quick", "thorough"))]
+
+TABLE = {"C08": c08, "C10": c10, "C01": c01, "C02": c02, "C05": c05, "C07": c07, "C09": c09, "C11": c11}
 
 
 def run(pid, tier, seed, replay, keep=False):
